@@ -235,11 +235,14 @@ class PureFockState(BaseFockState):
     def _get_mean_position_indices(self, mode):
         fallback_np = self._connector.fallback_np
 
-        self._space[:, mode] -= 1
-        lowered_indices = get_index_in_fock_space_array(self._space)
-        self._space[:, mode] += 2
-        raised_indices = get_index_in_fock_space_array(self._space)
-        self._space[:, mode] -= 1
+        # NOTE: `self._space` is a memoized array shared by every state with the same
+        # number of modes and cutoff, so it must not be modified in place.
+        space = fallback_np.copy(self._space)
+
+        space[:, mode] -= 1
+        lowered_indices = get_index_in_fock_space_array(space)
+        space[:, mode] += 2
+        raised_indices = get_index_in_fock_space_array(space)
 
         relevant_column = self._space[:, mode]
 
